@@ -286,6 +286,28 @@ def main():
                             res.fail(f"point evaluation elem={et} {nm} point={kinds[i]}", f"degree-{deg} field evaluated at a located {kinds[i]} point differs by {err.max():.2e} (relative)", dict(ident, degree=deg, point=pts[i].tolist()))
                         break
 
+    # ---------------- boundary rebuilt from the `faces` tables (MeshIO.Surface_reconstruction) ----------------
+    from EasyFEA import MeshIO
+    for et in M.ALL_3D:
+        for (mk, Q, mover, pmap) in moves(3):
+            if mk == "translation" and not thorough:
+                continue
+            mesh = MeshIO.Surface_reconstruction(M.mesh_3d(et, 2.0, 1.0, 1.5, 1.0, 2))
+            mover(mesh)
+            ident = dict(elemType=et, boundary="Surface_reconstruction", move=mk)
+            res.case((et, mk, "reconstructed boundary"))
+            res.count("reconstructed-boundary")
+            tot, fl = boundary_integrals(mesh)
+            barea = sum(float(np.asarray(g.Get_weightedJacobian_e_pg("mass")).sum()) for g in mesh.Get_list_groupElem(2))
+            if abs(barea - 13.0) > 1e-9:
+                res.fail(f"reconstructed boundary area elem={et}", f"area of the rebuilt boundary of the 2 x 1 x 1.5 box = {barea}, exact = 13", ident)
+            elif np.abs(tot).max() > 1e-9:
+                res.fail(f"reconstructed boundary not closed elem={et}", f"Σ ∫ n dS = {np.round(tot, 6).tolist()} over the boundary rebuilt from the element's faces table", ident)
+            elif abs(abs(fl) - 9.0) > 1e-9:
+                res.fail(f"reconstructed boundary flux elem={et}", f"|flux of the position vector| = {abs(fl)}, expected 3 x volume = 9", ident)
+            elif fl < 0:
+                res.fail(f"normals not outward dim=3 reconstructed move={mk}", f"flux of the position vector through the rebuilt boundary = {fl} = -3 x volume: the normals point inward (move: {mk})", ident)
+
     # ---------------- meshes holding several main element groups ----------------
     mixed = [("TRI3+QUAD4", lambda: M.mesh_mixed_2d()), ("PRISM6+HEXA8", lambda: M.mesh_mixed_3d())]
     if thorough:
@@ -352,15 +374,17 @@ def main():
             res.fail(f"center merged mirror elem={et}", f"centre {np.asarray(both.center).tolist()} is not on the mirror line at the height of the part's centroid", ident)
 
     # ---------------- surface embedded in 3D ----------------
-    for et in (["TRI3", "QUAD4", "TRI6"] if not thorough else M.ALL_2D):
-        mesh = M.mesh_2d(et, 2.0, 1.0, 0.7)
+    for et, general in [(e, gq) for e in (["TRI3", "QUAD4", "TRI6", "QUAD8"] if not thorough else M.ALL_2D) for gq in ([False, True] if e in M.QUAD else [False])]:
+        # general: quadrangles of a polygon mesh are not parallelograms (iterative inverse map)
+        mesh = M.mesh_2d(et, polygon=POLYGONS[2], h=1.2) if general else M.mesh_2d(et, 2.0, 1.0, 0.7)
+        area0 = abs(shoelace(POLYGONS[2])[0]) if general else 2.0
         ax, th = (rng.randint(1, 3), rng.randint(-3, 3), rng.randint(1, 3)), 53.0
         Q = rodrigues(ax, np.deg2rad(th))
         mesh.Rotate(th, (0.25, 0.5, 0.0), ax)
-        res.case((et, "embedded"))
-        ident = dict(elemType=et, embedded=True, axis=list(ax))
-        if abs(mesh.area - 2.0) > 1e-9:
-            res.fail(f"area embedded elem={et}", f"area of the rectangle rotated out of its plane = {mesh.area}, expected 2", ident)
+        res.case((et, "embedded", general))
+        ident = dict(elemType=et, embedded=True, axis=list(ax), general_quadrangles=general)
+        if abs(mesh.area - area0) > 1e-9:
+            res.fail(f"area embedded elem={et}", f"area of the surface rotated out of its plane = {mesh.area}, expected {area0}", ident)
         n = np.asarray(mesh.Get_list_groupElem(2)[0].Get_normals_e_pg("mass"))
         if np.abs(np.abs(n @ Q[:, 2]) - 1).max() > 1e-10:
             res.fail(f"normals embedded elem={et}", "the normals of the rotated plane surface are not ± Q e_z", ident)
@@ -370,7 +394,7 @@ def main():
         pts, kinds = sample_points(mesh, g, rng, 3)
         try:
             got = np.asarray(mesh.Evaluate_dofsValues_at_coordinates(pts, vals)).ravel()
-            if np.abs(got - p(pts)).max() > 1e-9 * (1 + np.abs(p(pts)).max()):
+            if np.abs(got - p(pts)).max() > (1e-6 if general else 1e-9) * (1 + np.abs(p(pts)).max()):
                 res.fail(f"point evaluation embedded elem={et}", f"linear field on a surface embedded in 3D differs by {np.abs(got - p(pts)).max():.2e}", ident)
         except Exception as ex:  # noqa: BLE001
             res.fail(f"point location raises embedded elem={et}", f"{type(ex).__name__}: {str(ex)[:150]}", ident)
